@@ -182,8 +182,6 @@ theorem compressDestSize_fits (src : Array UInt8) (acceleration : Int) (target :
           have := lastRunD_fits target _ (src.size - (runD (fastParams src acceleration 0 1) target src (src.size + 1)
             { anchor := 0, ip := 1, tbl := (Array.replicate (fastTableSize src) 0).setIfInBounds ((fastParams src acceleration 0 1).hash 0) 0, op := 0 }).2.anchor) o2
           dsimp only at o1
-          rw [o1] at this
-          trace_state
           omega
 
 end LZ4V.Model.FastDS
